@@ -44,7 +44,7 @@ PROP_LIT = {'_name': 'hasName', '_definition': 'hasDefinition', '_dtype': 'hasDt
 FORMATS = ('xml', 'nt', 'json-ld', 'turtle', 'n3')
 EXT = {'xml': '.rdf', 'nt': '.nt', 'json-ld': '.jsonld', 'turtle': '.ttl', 'n3': '.n3'}
 CUSTOM_MAP = {'t': 'CustomT', 'setup/daq': 'CustomDaq', 'recording': 'MyRecording'}
-WORKDIR = os.path.join(h.WORK, 'c1020', 'c10')
+WORKDIR = os.path.join(h.WORK, 'b_C10.tmp')      # created and removed by run_roundtrip
 
 
 def default_subclass_map():
@@ -121,10 +121,9 @@ def special_docs():
     return out
 
 
-def doc_sets(tier, seed):
+def doc_sets(tier, seed, per_shape, n_lists):
     """Yield (label, [documents]).  Exhaustive over the harness forest shapes, then special documents, then
     lists of 2-3 documents."""
-    per_shape = 3 if tier == 'quick' else 8
     gen = list(h.gen_docs(tier, seed, per_shape=per_shape))
     for i, d in enumerate(gen):
         yield 'gen[%d]' % i, [d]
@@ -132,7 +131,6 @@ def doc_sets(tier, seed):
     for label, d in spec:
         yield label, [d]
     rnd = random.Random(seed + 17)
-    n_lists = 6 if tier == 'quick' else 40
     pool = gen + [d for lab, d in spec if lab != 'tuples']
     for k in range(n_lists):
         n = 2 + (k % 2)
@@ -159,6 +157,20 @@ def features_of(docs):
             if s._repository is not None:
                 f.add('repo')
     return (len(docs), min(nsec, 4), min(nprop, 4), tuple(sorted(f)))
+
+
+class _Limited(object):
+    """Record at most `per_cls` witnesses per failure class, so that frequent classes cannot push rare ones
+    out of the collector's failure list."""
+
+    def __init__(self, col, per_cls=6):
+        self.col, self.per_cls, self.count = col, per_cls, {}
+
+    def fail(self, check, cls, witness, detail):
+        key = (check, tuple(sorted(cls.items())))
+        self.count[key] = self.count.get(key, 0) + 1
+        if self.count[key] <= self.per_cls:
+            self.col.fail(check=check, cls=cls, witness=witness, detail=detail)
 
 
 # ---------------------------------------------------------------------------------------------
@@ -257,6 +269,10 @@ def check_graph(g, docs, mode, smap):
     def extras(node, obj, allowed, kind):
         preds = set(str(p) for p in g.predicates(node, None))
         extra = preds - {NS + a for a in allowed} - {str(RDF.type)}
+        # the id is a set attribute too: repeating it as a literal is within the statement, if it is the id
+        ids = [str(o) for o in g.objects(node, U('hasId'))]
+        if ids == [obj._id]:
+            extra.discard(NS + 'hasId')
         if extra:
             yield 'exactly-set-attributes', '%s-extra-predicate' % kind, '%s %s carries unexpected %r' % (
                 kind, obj._id, sorted(extra))
@@ -367,14 +383,16 @@ def run_graph_shape(tier, seed):
     modes = (('off', dict(rdf_subclassing=False), {}),
              ('on', dict(), default_map),
              ('custom', dict(custom_subclasses=dict(CUSTOM_MAP)), custom))
-    for label, docs in doc_sets(tier, seed):
+    lim = _Limited(col)
+    sets = doc_sets(tier, seed, 8, 20) if tier == 'quick' else doc_sets(tier, seed, 30, 150)
+    for label, docs in sets:
         feats = features_of(docs)
         for mode, kw, smap in modes:
             col.case(cls_key=(mode,) + feats, sample='%s/%s' % (label, mode))
             arg = docs if len(docs) > 1 else (docs if (seed + len(label)) % 2 else docs[0])
             st, g = h.call(lambda: RDFWriter(arg, **kw).convert_to_rdf())
             if st == 'exc':
-                col.fail(check='C10.graph_shape/export-does-not-raise',
+                lim.fail(check='C10.graph_shape/export-does-not-raise',
                          cls={'clause': 'export-does-not-raise', 'feature': type(g).__name__},
                          witness={'docs': label, 'mode': mode, 'tier': tier, 'seed': seed},
                          detail='convert_to_rdf raised %r' % (g,))
@@ -384,7 +402,7 @@ def run_graph_shape(tier, seed):
                 if (clause, feature) in seen:
                     continue
                 seen.add((clause, feature))
-                col.fail(check='C10.graph_shape/%s' % clause, cls={'clause': clause, 'feature': feature},
+                lim.fail(check='C10.graph_shape/%s' % clause, cls={'clause': clause, 'feature': feature},
                          witness={'docs': label, 'mode': mode, 'tier': tier, 'seed': seed}, detail=detail)
     return col.result()
 
@@ -519,8 +537,10 @@ def run_roundtrip(tier, seed):
     os.makedirs(WORKDIR)
     modes = (dict(), dict(rdf_subclassing=False), dict(custom_subclasses=dict(CUSTOM_MAP)))
     counter = itertools.count()
+    lim = _Limited(col)
     try:
-        for k, (label, docs) in enumerate(doc_sets(tier, seed)):
+        sets = doc_sets(tier, seed, 4, 8) if tier == 'quick' else doc_sets(tier, seed, 10, 40)
+        for k, (label, docs) in enumerate(sets):
             feats = features_of(docs)
             src = {d._id: flat(d) for d in docs}
             saveable = len(docs) == 1 and _saveable(docs[0])
@@ -535,7 +555,7 @@ def run_roundtrip(tier, seed):
                     tup = 'tuple-values' if _has_tuple(docs) else None
 
                     def fail(clause, feature, detail):
-                        col.fail(check='C10.roundtrip/%s' % clause, cls={'clause': clause, 'feature': feature},
+                        lim.fail(check='C10.roundtrip/%s' % clause, cls={'clause': clause, 'feature': feature},
                                  witness=wit, detail=detail)
 
                     path = os.path.join(WORKDIR, 'f%d%s' % (next(counter), EXT[fmt]))
